@@ -269,6 +269,45 @@ def main():
         ck.log('planted states: %d (%s); judged differences %d; translator-validation differences %d; outside-quantifier differences (not judged) %s'
                % (len(cases), dist, nviol, tdiff, would_differ))
     ck.cov['evaluations'] += 3 * len(cases)
+    # ---- warm resets: from any planted state (= any state a run may have reached), i_rst raised between two clock edges or
+    # together with one: the registers are 0 at once and stay 0, nothing is stored, and while reset is held the design shows the
+    # fetch and the request of the instruction at address 0 (C03_reset_clears_registers, RtlC03.rtl_no_write_in_reset / rtl_outs_in_reset)
+    if not ck.replay_arg or 'reset_case' in json.load(open(ck.replay_arg)):
+        if ck.replay_arg:
+            rcases = [json.load(open(ck.replay_arg))['reset_case']]
+        else:
+            rcases = []
+            for i in range(600 if not ck.thorough() else 20000):
+                byte0 = rng.choice([0xD3, 0xD3, 0x20, 0x21, 0x80, 0x8F, 0x00, 0x30, 0xD0, 0xD1, rng.randrange(256), rng.randrange(256)])
+                w0 = byte0 | (rng.getrandbits(24) << 8)
+                wild = i % 3 == 0
+                regs = (rng.randrange(1 << 21) if wild else rng.randrange(64), rng.choice([0, 1, 2, 3, rng.getrandbits(32)]),
+                        rng.choice([0, 1, rng.getrandbits(32)]), rng.choice([0, 0x10, 0xFFFFFF00, rng.getrandbits(28) << 4, rng.getrandbits(32) if wild else 0]))
+                rcases.append('%d %d %d %d %d %d' % (regs + (w0, i % 2)))
+        open(os.path.join(d, 'resets.txt'), 'w').write('\n'.join(rcases) + '\n')
+        rcz, oz = sh('%s reset < resets.txt > resets.out' % har, cwd=d, timeout=1800)
+        Z = [l[2:] for l in open(os.path.join(d, 'resets.out')).read().split('\n') if l.startswith('Z ')]
+        if rcz == 124:
+            ck.broken.append('the Verilated hex top did not finish the reset cases within the time limit (machine loaded?): inconclusive')
+        elif rcz != 0 or len(Z) != len(rcases):
+            ck.violation('the Verilated hex top stopped on a reset case (rc=%d, %d/%d results)' % (rcz, len(Z), len(rcases)),
+                         {'reset_case': rcases[len(Z)] if len(Z) < len(rcases) else None, 'log': oz[-300:]}, tags={'kind': 'crash'})
+        else:
+            nres = 0
+            for c, z in zip(rcases, Z):
+                byte0 = int(c.split()[4]) & 0xff
+                want = '0 0 0 0 %d 0 %d' % (1 if byte0 == 0xD3 else 0, byte0)
+                expect = ' | '.join([want, want, want, '0'])
+                ck.cov['evaluations'] += 1
+                if z.strip() != expect:
+                    nres += 1
+                    if nres <= 3:
+                        ck.violation('a warm reset from [pc areg breg oreg word0 how = %s] does not put the design into the start state: expected [%s] (registers 0, request and fetch of the instruction at address 0, no store) at: reset raised | clock edge under reset | reset released; got [%s]'
+                                     % (c, expect, z.strip()),
+                                     {'reset_case': c, 'format': 'pc areg breg oreg word0 how(0 = i_rst raised with the clock low, 1 = together with a rising edge)',
+                                      'expected': expect, 'rtl': z.strip(), 'replay_cmd': './check C03 --replay <this file>'}, tags={'kind': 'reset'})
+            ck.cov['reset_cases'] = {'cases': len(rcases), 'differing': nres}
+            ck.log('warm resets: %d cases, differing %d' % (len(rcases), nres))
     # ---- whole runs
     runs = 0
     rundiff = 0
